@@ -7,7 +7,7 @@ plans, silence from frame k on.
 import itertools
 
 from .txn import Cfg, run_scenario, check_c04, check_payloads, check_wire, outcomes_of, expected_outcome, STATE_SEEN
-from .fnet import Plan, DROP, DUP, DELAY, HOLD
+from .fnet import Plan, DROP, DUP, DELAY, HOLD, DUPLATE
 from .stacks import size_for_encoded, enc_len
 from .vclock import CLOCK
 
@@ -100,6 +100,9 @@ def single_faults(cfg, nframes):
         yield Plan({k: (DELAY, 0.5 * cfg.t_seg)})
         yield Plan({k: (DELAY, 1.5 * cfg.t_out)})
         yield Plan({k: (HOLD,)})
+        # a duplicate that arrives late: within the exchange, and after it is over
+        yield Plan({k: (DUPLATE, 0.5 * cfg.t_seg)})
+        yield Plan({k: (DUPLATE, 1.5 * cfg.t_out + cfg.think)})
 
 
 def latency_single_faults(cfg, nframes, rng, frames=None):
